@@ -76,6 +76,8 @@ pub struct Case {
     /// Chain only: index into OBTAINS / USES
     pub obtain: usize,
     pub use_: usize,
+    /// write scenarios: inbound bytes queued on the writing socket that the application never reads (0 or 4)
+    pub rx: usize,
 }
 
 impl Case {
@@ -85,6 +87,7 @@ impl Case {
             "fam": if self.fam == Fam::Unix { "unix" } else { "tcp" },
             "len": self.len, "cap": self.cap, "mode": self.mode,
             "timeout_ns": self.timeout,
+            "rx_pending": self.rx,
             "peer": PEERS.iter().find(|s| s.0 == self.peer).map(|s| s.1),
             "obtain": if self.scen == Scen::Chain { OBTAINS.get(self.obtain) } else { None },
             "use": if self.scen == Scen::Chain { USES.get(self.use_) } else { None },
@@ -101,6 +104,7 @@ impl Case {
             peer: PEERS.iter().find(|s| Some(s.1) == v["peer"].as_str())?.0,
             obtain: OBTAINS.iter().position(|s| Some(*s) == v["obtain"].as_str()).unwrap_or(0),
             use_: USES.iter().position(|s| Some(*s) == v["use"].as_str()).unwrap_or(0),
+            rx: v["rx_pending"].as_u64().unwrap_or(0) as usize,
         })
     }
     /// `<Type>::<op>` of the operation under test
@@ -379,6 +383,7 @@ pub unsafe fn app(case: &Case, wp: *mut World) -> AppOut {
                 }
             };
             (*wp).peer.reads = true;
+            (*wp).prefill_rx(s.fd(), case.rx);
             reset_counters(wp);
             (*wp).set_op(&op, true);
             (*wp).set_phase(Phase::Measured);
@@ -810,6 +815,7 @@ pub unsafe fn app(case: &Case, wp: *mut World) -> AppOut {
                 _ => {
                     // more than the buffer holds and a peer that never reads: must wait for ever
                     (*wp).set_op(&op, false);
+                    (*wp).prefill_rx(s.fd(), case.rx);
                     let pl = payload(case.len);
                     match s.write_all(&pl) {
                         Ok(()) => {
@@ -956,6 +962,29 @@ pub fn run_exec(case: &Case, prefix: &[u8], menu: Menu) -> Exec {
                 outcome.push_str("+kernel-sleep");
             }
         }
+    }
+    if let Some((wop, ev, need)) = w.wrong_events.clone() {
+        let nm = |e: i16| {
+            let mut v = Vec::new();
+            if e & libc::POLLIN != 0 {
+                v.push("POLLIN");
+            }
+            if e & libc::POLLOUT != 0 {
+                v.push("POLLOUT");
+            }
+            if e & !(libc::POLLIN | libc::POLLOUT) != 0 {
+                v.push("other");
+            }
+            format!("{} ({e:#x})", v.join("|"))
+        };
+        viol.push((
+            format!("C16:{wop}:waits-for-wrong-events"),
+            format!(
+                "{wop}: after a would-block answer the operation needs {} but its ppoll asks for {} — readiness in the other direction ends the wait although the operation still cannot proceed",
+                nm(need),
+                nm(ev)
+            ),
+        ));
     }
     if let Some(st) = w.stuck.clone() {
         let call = sysx::name(st.nr);
